@@ -11,12 +11,12 @@ package core
 // {when:{K:L}}; no ttl (see C07's open finding); both state implementations.
 
 type vhFaultStore struct {
-	inner    *MemStorage
-	calls    int
-	failAt   int // the failAt-th mutating call returns an error (0: never)
-	crashAt  int // mutating calls after the crashAt-th are lost (0: never)
-	failed   bool
-	crashed  bool
+	inner   *MemStorage
+	calls   int
+	failAt  int // the failAt-th mutating call returns an error (0: never)
+	crashAt int // mutating calls after the crashAt-th are lost (0: never)
+	failed  bool
+	crashed bool
 }
 
 func (s *vhFaultStore) hit() (fail bool, drop bool) {
